@@ -43,6 +43,8 @@ use ack_frequency::AckFrequencyState;
 
 mod assembler;
 pub use assembler::Chunk;
+#[cfg(feature = "verif-hooks")]
+pub use assembler::VerifAssembler;
 
 mod cid_state;
 use cid_state::CidState;
